@@ -783,9 +783,10 @@ def thread_desc(t):
 class WatchdogFired(BaseException):
     """Wall-clock budget of one run exhausted (raised in the main thread)."""
 
-    def __init__(self, in_funcs):
+    def __init__(self, in_funcs, in_lines=()):
         super().__init__('wall-clock watchdog')
         self.in_funcs = in_funcs     # listener functions on the main stack
+        self.in_lines = list(in_lines)   # and the source lines they are at
 
 
 class Watchdog:
@@ -804,12 +805,13 @@ class Watchdog:
         if not self.armed:
             return
         self.armed = False
-        funcs = []
+        funcs, lines = [], []
         f = frame
         while f is not None:
             fn = os.path.abspath(f.f_code.co_filename)
             if fn.startswith(REPO_DIR + os.sep):
                 funcs.append(f.f_code.co_name)
+                lines.append(linecache.getline(fn, f.f_lineno).strip())
             f = f.f_back
         try:
             sys.stderr.write('\n== vf wall-clock watchdog fired ==\n')
@@ -819,7 +821,7 @@ class Watchdog:
                     faulthandler.dump_traceback(file=fh, all_threads=True)
         except Exception:  # pylint: disable=broad-except
             pass
-        raise WatchdogFired(funcs)
+        raise WatchdogFired(funcs, lines)
 
     def install(self):
         signal.signal(signal.SIGALRM, self._handler)
